@@ -21,6 +21,7 @@ func init() {
 			"after the executor's Run, Node.Execute returns and records that Run's result on every way the value is formed (C02.exec-error-reported)",
 			"the polling loop is left (loop test, break, return) only under finished(g) or the cancel flag, and finished(g) ranges over all nodes, passes over a node only when it is neither not-started nor running, and answers true only after the range is exhausted (C02.run-to-completion)",
 			"finished is stored only under status==running (C02.success-label); launch is gated and unique (C01.gate, C01.single-launch shared)",
+			"in the loader functions the evaluation of conditions reaches, once the error of running a substituted command (exec.Cmd.Output / CombinedOutput / Run) is assumed non-nil no return that may hand back a nil error is reachable (C02.condition-command-status)",
 		},
 		NotDec: []string{
 			"liveness proper (that the loop makes progress); decided is only that it cannot END while a node is not-started or running unless the run was stopped (C02.run-to-completion)",
@@ -40,6 +41,7 @@ func runC02(e *Env) {
 	c02MarkTable(e, s)
 	c01ReadyTable(e, s, false)
 	c02PrecondSkip(e, s)
+	c02ConditionCommandStatus(e, "C02.condition-command-status")
 	c02FailLabel(e, s)
 	c02SuccessLabel(e, s)
 	c01Gate(e, s)
